@@ -18,7 +18,7 @@ extern "C" {
 
 namespace {
 
-enum { OP_SPEC = 1, OP_LAUNCH, OP_JOIN, OP_JOIN_ALL, OP_SET_TIMEOUT, OP_SLEEP, OP_YIELD, OP_ATEXIT, OP_ATEXIT_MAIN, OP_COUNT_QUERY, OP_DETACH, OP_CALL_ONCE };
+enum { OP_SPEC = 1, OP_LAUNCH, OP_JOIN, OP_JOIN_ALL, OP_SET_TIMEOUT, OP_SLEEP, OP_YIELD, OP_ATEXIT, OP_ATEXIT_MAIN, OP_COUNT_QUERY, OP_DETACH, OP_CALL_ONCE, OP_LIB_REINIT };
 // OP_CALL_ONCE: a = flag (0..2), b = the once-function registers an at-exit callback on the thread it runs on
 static const int MAXT = 12;
 
@@ -53,6 +53,8 @@ struct Ctx {
     std::map<int, std::vector<uint64_t>> ja_reads; // per calling simulated thread: wall-clock reads made inside its join_all call
     int main_tid = 0;
     uint64_t timeout_ns = 0;
+    struct TSet { uint64_t b, e, old_v, new_v; };
+    std::vector<TSet> timeout_sets; // every set_managed_join_timeout call: event sequence numbers of its begin and end, value before and after
 };
 static Ctx *g = nullptr;
 
@@ -203,6 +205,7 @@ void do_join_all(Ctx &c, bool final_call) {
     c.ja_reads[me].clear();
     std::vector<uint64_t> &my_reads = c.ja_reads[me];
     uint64_t timeout_at_call = c.timeout_ns;
+    uint64_t seq_at_call = sim::seq();
     if (me != c.main_tid) sim::probe("join_all_called_from_a_joinable_thread");
     sim::note(sim::PK_HARNESS, nullptr, 1200);
     bool any_running = false;
@@ -213,9 +216,15 @@ void do_join_all(Ctx &c, bool final_call) {
     c.ja_reads.erase(me);
     c.ops_done++;
     if (rc != AWS_OP_SUCCESS) {
-        if (timeout_at_call == 0 && c.timeout_ns == 0) sim::violation("c20:join-all", "unbounded aws_thread_join_all_managed returned an error");
-        bool reached = false;
+        // the timeout the call worked with is whatever was set when it read the value: the one in force at the call or any value set while it ran
+        // (the library's value changes somewhere inside each set call, so a set that overlaps this call contributes both its values)
         uint64_t tmo = timeout_at_call ? timeout_at_call : c.timeout_ns;
+        for (auto &ts : c.timeout_sets)
+            if (ts.e >= seq_at_call) {
+                for (uint64_t v : {ts.old_v, ts.new_v}) if (v && (tmo == 0 || v < tmo)) tmo = v;
+            }
+        if (tmo == 0) sim::violation("c20:join-all", "unbounded aws_thread_join_all_managed returned an error");
+        bool reached = false;
         if (!reads.empty()) {
             uint64_t dl = reads[0] + tmo;
             for (uint64_t v : reads) if (v >= dl) reached = true;
@@ -316,9 +325,28 @@ void body(Ctx &c, int id) {
                 break;
             case OP_JOIN_ALL: if (id == 0 || !c.t[id].managed) do_join_all(c, false); break; // legal from the main thread or any non-managed thread
             case OP_SET_TIMEOUT:
-                if (id == 0) { c.timeout_ns = (uint64_t)op.a; aws_thread_set_managed_join_timeout_ns(c.timeout_ns); }
+                if (id == 0) {
+                    // other threads may be inside join_all right now and read the value at any moment around this call
+                    c.timeout_sets.push_back(Ctx::TSet{sim::seq(), UINT64_MAX, c.timeout_ns, (uint64_t)op.a});
+                    c.timeout_ns = (uint64_t)op.a;
+                    aws_thread_set_managed_join_timeout_ns(c.timeout_ns);
+                    c.timeout_sets.back().e = sim::seq();
+                }
                 break;
             case OP_COUNT_QUERY: (void)aws_thread_get_managed_thread_count(); break;
+            case OP_LIB_REINIT:
+                // a second library lifetime in the same process: clean-up (which joins the managed threads, within the timeout if one
+                // is set) followed by init. Managed threads that outlive a timed-out clean-up are still owed their join afterwards.
+                if (id == 0) {
+                    bool running = false;
+                    for (int i = 1; i <= MAXT; i++) if (c.t[i].managed && c.t[i].launched_ok && !sim::thread_done(c.t[i].sim_tid >= 0 ? c.t[i].sim_tid : 0)) running = true;
+                    sim::probe(running ? "library_reinitialised_while_managed_threads_alive" : "library_reinitialised");
+                    sim::note(sim::PK_HARNESS, nullptr, 1300);
+                    aws_common_library_clean_up();
+                    aws_common_library_init(aws_default_allocator());
+                    c.ops_done++;
+                }
+                break;
             case OP_CALL_ONCE: {
                 OnceCall oc{&c, id, sim::self(), (int)(op.a % 3), op.b != 0};
                 aws_thread_call_once(&g_once[oc.flag], once_fn, &oc);
@@ -480,6 +508,11 @@ void gen(uint64_t seed, int tier, sim::Plan &p) {
             sim::Op j; j.thr = 0; j.kind = OP_JOIN_ALL; p.ops.push_back(j);
             join_all_placed = true;
         }
+        if (r.chance(0.04)) { // a second library lifetime starts while threads of the first may still be running
+            if (r.chance(0.7)) { sim::Op t; t.thr = 0; t.kind = OP_SET_TIMEOUT; t.a = r.pick(std::vector<int64_t>{1, 1000, 1000000, 500000000}); p.ops.push_back(t); }
+            sim::Op li; li.thr = 0; li.kind = OP_LIB_REINIT; p.ops.push_back(li);
+            if (r.chance(0.5)) { sim::Op t; t.thr = 0; t.kind = OP_SET_TIMEOUT; t.a = 0; p.ops.push_back(t); }
+        }
     }
     // joins of the manual threads in generated order, join_all before / between / after
     std::vector<int> order;
@@ -494,6 +527,11 @@ void gen(uint64_t seed, int tier, sim::Plan &p) {
         sim::Op o; o.thr = 0; o.kind = r.chance(0.15) ? OP_DETACH : OP_JOIN; o.a = i - 1; p.ops.push_back(o);
     }
     (void)join_all_placed;
+    // the library re-loads its optional libnuma entry points when it is initialised again: threads that are launched with a cpu_id while
+    // main is between clean-up and init would use the library during its tear-down - not generated
+    bool has_reinit = false;
+    for (auto &o : p.ops) if (o.kind == OP_LIB_REINIT) has_reinit = true;
+    if (has_reinit) for (auto &o : p.ops) if (o.kind == OP_SPEC && (o.c % 7 == 3 || o.c % 7 == 4)) o.c = 1;
     // join_all_managed polls while one managed thread is left (documented): make a step cost enough virtual time
     // for sleeping threads to wake up within a reasonable number of polling iterations
     p.cfg["cpu_cost"] = r.pick(std::vector<int64_t>{1000, 10000, 100000});
@@ -520,6 +558,7 @@ std::string op_text(const sim::Op &op) {
         case OP_ATEXIT: snprintf(b, sizeof b, "thread %d: aws_thread_current_at_exit(next tag)%s%s", op.thr, op.a ? " [its callback registers one more callback]" : "", op.b % 4 ? " [the identical registration is repeated]" : ""); break;
         case OP_ATEXIT_MAIN: snprintf(b, sizeof b, "main: aws_thread_current_at_exit (must be refused: not an aws thread)"); break;
         case OP_COUNT_QUERY: snprintf(b, sizeof b, "thread %d: aws_thread_get_managed_thread_count()", op.thr); break;
+        case OP_LIB_REINIT: snprintf(b, sizeof b, "main: aws_common_library_clean_up(); aws_common_library_init()"); break;
         case OP_CALL_ONCE: snprintf(b, sizeof b, "thread %d: aws_thread_call_once(flag %lld)%s", op.thr, (long long)(op.a % 3), op.b ? " [the function registers an at-exit callback]" : ""); break;
         default: snprintf(b, sizeof b, "?");
     }
